@@ -301,7 +301,12 @@ CLAIMS = {
              "prefix, any bit subset: recovery succeeds and the fragment sent again is answered as uninterrupted, with the "
              "same abstraction), crash_resume_resend_torn_L2_partial / crash_resume_continue_torn_L2_partial (any torn "
              "program outside finish, provided the written-mark bytes and the matrix diagonal bytes read as before — the "
-             "two excluded cases are real: torn_mark_hazard, torn_row_hazard). "
+             "two excluded cases are real: torn_mark_hazard, torn_row_hazard). C06d proves the NEGATION for the torn "
+             "matrix-row case with a concrete machine-checked witness at the flash-level model: torn_row_breaks_resume "
+             "(two 32 KiB slots, image [[7],[9]], coded fragment 3, tear of the row program keeping bit 0: recovery "
+             "returns a session, the fragment sent again answers FirmwareComplete, and fragment 0 reads [0] instead of "
+             "[7]) and torn_row_not_repaired (the conclusion of the _partial theorem fails without hdiags) - the same "
+             "scenario that is replayed on the real code (corpus/d5t.txt, known finding). "
              "On the real code: crash and torn-write enumeration inside every operation kind with post-reboot sweep (d5w), "
              "and torn programs inside fragment handling followed by reboot, recovery, the rest of the transmission and the "
              "final check, with the losses placed in the 64 bytes the CRC does not cover (d5t).",
